@@ -299,4 +299,254 @@ theorem update_oids {ac : ACtx} {c : Coll} {q u : Doc} {sort : Option Doc} {skip
   · rw [h2]
   · exact applyAll_oids hap
 
+/-! ### `Collection.Upsert` -/
+
+theorem upsert_unfold (ac : ACtx) (c : Coll) (q : Doc) (repl update : Option Doc) (fs : List Doc) (nu : Nu) :
+    c.upsert ac q repl update fs nu =
+      match upsertDoc ac q repl update fs with
+      | .error e => .error e
+      | .ok doc => c.insert ac.sch doc nu := by
+  unfold Coll.upsert upsertDoc
+  cases Extract q with
+  | error e => rfl
+  | ok seed =>
+    simp only
+    cases repl with
+    | none =>
+      simp only
+      cases update with
+      | none => rfl
+      | some u =>
+        simp only
+        cases Apply { ac with upsert := true } seed u fs with
+        | error e => rfl
+        | ok p => rfl
+    | some r =>
+      simp only
+      by_cases h1 : (!(Get seed "_id").isMissing && !(Get r "_id").isMissing &&
+          V.cmp (Get r "_id") (Get seed "_id") != .eq) = true
+      · simp only [h1, ↓reduceIte]
+      · simp only [h1, ↓reduceIte]
+        by_cases h2 : (!(Get r "_id").isMissing) = true
+        · simp only [h2, ↓reduceIte]
+          cases Put r ["_id"] (Get r "_id") true with
+          | error e => rfl
+          | ok p =>
+            simp only
+            cases update with
+            | none => rfl
+            | some u =>
+              simp only
+              cases Apply { ac with upsert := true } p.1 u fs with
+              | error e => rfl
+              | ok p' => rfl
+        · simp only [h2, ↓reduceIte]
+          by_cases h3 : (!(Get seed "_id").isMissing) = true
+          · simp only [h3, ↓reduceIte]
+            cases Put r ["_id"] (Get seed "_id") true with
+            | error e => rfl
+            | ok p =>
+              simp only
+              cases update with
+              | none => rfl
+              | some u =>
+                simp only
+                cases Apply { ac with upsert := true } p.1 u fs with
+                | error e => rfl
+                | ok p' => rfl
+          · simp only [h3, ↓reduceIte]
+            cases update with
+            | none => rfl
+            | some u =>
+              simp only
+              cases Apply { ac with upsert := true } r u fs with
+              | error e => rfl
+              | ok p' => rfl
+
+/-- the document an upsert would insert is a Go value -/
+def UpsertOk (ac : ACtx) (q : Doc) (repl update : Option Doc) (fs : List Doc) : Prop :=
+  ∀ doc, upsertDoc ac q repl update fs = .ok doc → DocOk doc
+
+/-- `Collection.Upsert` = the Spec's upsert -/
+theorem upsert_abs {ac : ACtx} {c : Coll} {nu : Nu} (hc : Coherent ac.sch c) (hb : IdsBelow c.docs nu.nextId)
+    (hok : DocsOk c.docs) (q : Doc) (repl update : Option Doc) (fs : List Doc)
+    (hu : UpsertOk ac q repl update fs) (ho : ∀ o ∈ nu.oids, o.i64Ok = true) :
+    (c.upsert ac q repl update fs nu).map (fun r => (absC r.1, r.2.1.doc, r.2.2.oids)) =
+      (absC c).upsert ac q repl update fs nu.oids := by
+  rw [upsert_unfold]
+  unfold SColl.upsert
+  cases hd : upsertDoc ac q repl update fs with
+  | error e => rfl
+  | ok doc => exact insert_abs hc hb hok (hu doc hd) ho
+
+/-! ### `Transaction.update` -/
+
+theorem appendOplog_oids (cat : Catalog) (nu : Nu) (h : Handle) (op : String) (doc : Option Doc)
+    (ch : Option (List (String × V))) : (appendOplog cat nu h op doc ch).2.oids = nu.oids := by
+  simp [appendOplog, Nu.fresh]
+
+theorem fold_append_oids {α : Type} (F : Catalog × Nu → α → Catalog × Nu)
+    (hF : ∀ cn a, ∃ h op doc ch, F cn a = appendOplog cn.1 cn.2 h op doc ch) :
+    ∀ (l : List α) (cn : Catalog × Nu), (l.foldl F cn).2.oids = cn.2.oids
+  | [], _ => rfl
+  | a :: r, cn => by
+    rw [List.foldl_cons, fold_append_oids F hF r]
+    obtain ⟨h, op, doc, ch, e⟩ := hF cn a
+    rw [e, appendOplog_oids]
+
+theorem update_changes_len {ac : ACtx} {c : Coll} {q u : Doc} {sort : Option Doc} {skip limit : Int}
+    {fs : List Doc} {nu nu' : Nu} {res : CResult}
+    (h : c.update ac q u sort skip limit fs nu = .ok (res, nu')) :
+    res.changes.length = res.modified.length := by
+  unfold Coll.update at h
+  simp only at h
+  split at h
+  · cases h
+  · simp only [Except.ok.injEq, Prod.mk.injEq] at h
+    rw [← h.1]
+    rfl
+  · split at h
+    · cases h
+    · split at h
+      · cases h
+      · split at h
+        · cases h
+        · split at h
+          · cases h
+          · simp only [Except.ok.injEq, Prod.mk.injEq] at h
+            rw [← h.1]
+            simp
+
+theorem zip_isEmpty {α β} : ∀ (l1 : List α) (l2 : List β), l2.length = l1.length →
+    (l1.zip l2).isEmpty = l1.isEmpty
+  | [], _, _ => by simp
+  | a :: r, [], h => by simp at h
+  | a :: r, b :: s, _ => by simp
+
+/-- what an update call needs to know about its arguments, on the Spec's state -/
+structure UpdateOk (ac : ACtx) (db : SeqDB) (h : Handle) (q u : Doc) (upsert : Bool) (fs : List Doc)
+    (oids : List V) : Prop where
+  query : QueryOk ac.sch db h q
+  apply : ApplyOkOn ac (db.coll h).docs u fs
+  ups : upsert = true → UpsertOk ac q none (some u) fs
+  oids : ∀ o ∈ oids, o.i64Ok = true
+
+/-- `Transaction.update` = the Spec's `opUpdate` -/
+theorem updateOp_abs {ac : ACtx} {cat : Catalog} {nu : Nu} (g : Good ac.sch true cat nu.nextId)
+    (ok : OkDB (abs cat)) {h : Handle} (hne : h ≠ oplogHandle) (q u : Doc) (sort : Option Doc)
+    (upsert : Bool) (skip limit : Int) (fs : List Doc)
+    (hw : UpdateOk ac (abs cat) h q u upsert fs nu.oids) :
+    (updateOp ac cat h q u sort upsert skip limit fs nu).map (fun r => (abs r.1, r.2.1, r.2.2.oids)) =
+      opUpdate ac (abs cat) h q u sort upsert skip limit fs nu.oids := by
+  have k := g.ensureNs hne
+  have kc := collOk_ensureNs g ok hne
+  have happ : ApplyOkOn ac ((ensureNs cat h).docs.map (·.doc)) u fs := by
+    have := hw.apply; rw [abs_coll cat hne] at this; exact this
+  have hua := update_abs kc k.below q u sort skip limit fs (queryOk_noMatchError hne hw.query) happ
+  unfold updateOp opUpdate
+  rw [abs_coll cat hne]
+  dsimp only
+  rw [← hua]
+  cases hupd : (ensureNs cat h).update ac q u sort skip limit fs nu with
+  | error e => simp only [hupd, Except.map]
+  | ok r =>
+    obtain ⟨res, nu1⟩ := r
+    simp only [hupd, Except.map, List.isEmpty_map]
+    have hoids := update_oids hupd
+    obtain ⟨_, _, hle⟩ := k.coherent.update k.below hupd
+    cases hcond : (res.matched.isEmpty && upsert) with
+    | true =>
+      simp only [↓reduceIte]
+      have hup : upsert = true := by
+        cases upsert with
+        | true => rfl
+        | false => simp at hcond
+      have hins := upsert_abs (ac := ac) (c := ensureNs cat h) (nu := nu1) k.coherent
+        (k.below.mono hle) kc.docsOk q none (some u) fs (hw.ups hup) (by rw [hoids]; exact hw.oids)
+      rw [hoids] at hins
+      rw [← hins]
+      cases hu : (ensureNs cat h).upsert ac q none (some u) fs nu1 with
+      | error e => rfl
+      | ok r2 =>
+        obtain ⟨coll, sd, nu2⟩ := r2
+        have ho' : ∃ c, (oplogHandle, c) ∈ (cat.set h coll).namespaces := set_keeps g.1.oplog
+        have ha := (abs_appendOplog ho' nu2 h "insert" (some sd.doc) none).1
+        rw [abs_set cat coll hne] at ha
+        simp only [Except.map, ha, appendOplog_oids]
+    | false =>
+      simp only [Bool.false_eq_true, ↓reduceIte]
+      have hF : ∀ (cn : Catalog × Nu) (a : SDoc × List (String × V)), ∃ h' op doc ch,
+          (match a with
+            | (m, ch) => appendOplog cn.1 cn.2 h "update" (some m.doc) (some ch)) =
+            appendOplog cn.1 cn.2 h' op doc ch := by
+        rintro cn ⟨m, ch⟩; exact ⟨h, "update", some m.doc, some ch, rfl⟩
+      have ho' : ∃ c, (oplogHandle, c) ∈ (cat.set h res.coll).namespaces := set_keeps g.1.oplog
+      have hf := (abs_fold_append _ hF (res.modified.zip res.changes) (cat.set h res.coll, nu1) ho').1
+      have hfo := fold_append_oids _ hF (res.modified.zip res.changes) (cat.set h res.coll, nu1)
+      simp only at hf hfo
+      rw [zip_isEmpty _ _ (update_changes_len hupd), abs_set cat res.coll hne] at hf
+      simp only [hf, hfo, hoids]
+
+/-- `Transaction.Update` = the Spec's `updateCall` -/
+theorem txnUpdate_abs {ac : ACtx} (s : Sys) (h : Handle) (q u : Doc) (sort : Option Doc) (upsert : Bool)
+    (limit : Int) (fs : List Doc) (oids : List V) (g : Good ac.sch true s.catalog s.nextId)
+    (ok : OkDB (abs s.catalog)) (hw : UpdateOk ac (abs s.catalog) h q u upsert fs oids) :
+    updateCall ac (abs s.catalog) h q u sort upsert limit fs oids =
+      (Txn.update ac { catalog := s.catalog } h q sort u 0 limit upsert fs (s.nu oids)).map
+        (fun r => (abs (s.commit r.1 r.2.2).catalog, r.2.1)) := by
+  unfold updateCall Txn.update
+  cases hwr : writable h true with
+  | error e => rfl
+  | ok _ =>
+    have hne := writable_ne_oplog hwr
+    simp only [abs_get?_isNone s.catalog hne]
+    cases hg : ((s.catalog.get? h).isNone && !upsert) with
+    | true => simp [Except.map, Sys.commit]
+    | false =>
+      simp only [Bool.false_eq_true, ↓reduceIte]
+      have hop := updateOp_abs (nu := s.nu oids) g ok hne q u sort upsert 0 limit fs hw
+      simp only [Sys.nu] at hop ⊢
+      rw [← hop]
+      cases updateOp ac s.catalog h q u sort upsert 0 limit fs { nextId := s.nextId, oids := oids } with
+      | error e => rfl
+      | ok r =>
+        obtain ⟨cat', res, nu'⟩ := r
+        simp only [Except.map]
+        cases hb : (!res.modified.isEmpty || res.upserted.isSome) <;> simp [Sys.commit, keepIf]
+
+theorem refines_updateOne (s : Sys) (h : Handle) (q u : Doc) (upsert : Bool) (fs : List Doc) (oids : List V)
+    (g : Good sch true s.catalog s.nextId) (ok : OkDB (abs s.catalog))
+    (hw : UpdateOk (acOf sch) (abs s.catalog) h q u upsert fs oids) :
+    Refines sch s (.updateOne h q u upsert fs) oids := by
+  unfold Refines Sys.step
+  simp only [Spec.step, runCall, txnUpdate_abs (ac := acOf sch) s h q u none upsert 1 fs oids g ok hw]
+  cases Txn.update (acOf sch) { catalog := s.catalog } h q none u 0 1 upsert fs (s.nu oids) with
+  | error e => rfl
+  | ok r => rfl
+
+theorem refines_updateMany (s : Sys) (h : Handle) (q u : Doc) (upsert : Bool) (fs : List Doc) (oids : List V)
+    (g : Good sch true s.catalog s.nextId) (ok : OkDB (abs s.catalog))
+    (hw : UpdateOk (acOf sch) (abs s.catalog) h q u upsert fs oids) :
+    Refines sch s (.updateMany h q u upsert fs) oids := by
+  unfold Refines Sys.step
+  simp only [Spec.step, runCall, txnUpdate_abs (ac := acOf sch) s h q u none upsert 0 fs oids g ok hw]
+  cases Txn.update (acOf sch) { catalog := s.catalog } h q none u 0 0 upsert fs (s.nu oids) with
+  | error e => rfl
+  | ok r => rfl
+
+theorem refines_findOneAndUpdate (s : Sys) (h : Handle) (q u : Doc) (sort proj : Option Doc) (upsert after : Bool)
+    (fs : List Doc) (oids : List V) (g : Good sch true s.catalog s.nextId) (ok : OkDB (abs s.catalog))
+    (hw : UpdateOk (acOf sch) (abs s.catalog) h q u upsert fs oids) :
+    Refines sch s (.findOneAndUpdate h q u sort proj upsert after fs) oids := by
+  unfold Refines Sys.step
+  simp only [Spec.step, runCall, txnUpdate_abs (ac := acOf sch) s h q u sort upsert 1 fs oids g ok hw]
+  cases Txn.update (acOf sch) { catalog := s.catalog } h q sort u 0 1 upsert fs (s.nu oids) with
+  | error e => rfl
+  | ok r =>
+    obtain ⟨t, res, nu⟩ := r
+    simp only [Except.map]
+    cases projOpt sch proj (famDoc res after) with
+    | error e => rfl
+    | ok d => rfl
+
 end Lungo.SeqRef
